@@ -343,6 +343,48 @@ func famFlyio(r *Rng, o *Out, tier string) {
 			o.emit(fmt.Sprintf("(wf %s)", d.SxFlyio(0, 0)), res)
 		}
 	}
+	// feature NAMES are free-form: a feature called like a sibling resource's label ("app", "machine", ...) is still
+	// a second resource at that level
+	for _, name := range []string{"app", "storage-object", "machine", "volume", "command-execution", "cluster", "feature", "org"} {
+		for pat := 0; pat < 1<<9; pat++ {
+			bit := func(i int) bool { return pat>>i&1 == 1 }
+			d := &Dyn{Action: 1, Org: p64(1)}
+			if bit(0) {
+				d.App = p64(2)
+			}
+			if bit(1) {
+				d.Feature = pstr(name)
+			}
+			if bit(2) {
+				p := resset.Prefix("s")
+				d.Storage = &p
+			}
+			if bit(3) {
+				d.Machine = pstr("m")
+			}
+			if bit(4) {
+				d.Volume = pstr("v")
+			}
+			if bit(5) {
+				d.AppFeat = pstr(name)
+			}
+			if bit(6) {
+				d.HasCmd = true
+				d.Command = []string{"ls"}
+			}
+			if bit(7) {
+				d.MachFeat = pstr(name)
+			}
+			if bit(8) {
+				d.Cluster = pstr("c")
+			}
+			a := d.FlyioAccess()
+			res := guard(func() string { return sxErr(a.Validate()) })
+			errClassStats(o, res)
+			o.count("wf.labelnames")
+			o.emit(fmt.Sprintf("(wf %s)", d.SxFlyio(0, 0)), res)
+		}
+	}
 	// GetPermittedRoles over all features x actions
 	allFeats := []string{"wg", "domain", "site", "builder", "addon", "checks", "litefs-cloud", "membership", "billing", "deletion", "document_signing", "authentication", "unknown", ""}
 	for _, f := range allFeats {
